@@ -213,6 +213,19 @@ def run(repo: Repo, tier: str) -> Report:
         r_bind(rep, sites[k_], kernels[k_])
         rep.ob("R-BIND", AFILE, sites[k_].where(), f"{k_} receives {wa}", [ast.unparse(a) for a in sites[k_].args] == wa,
                f"{[ast.unparse(a) for a in sites[k_].args]}", f"{k_} args", line=sites[k_].line)
+    from ..cfg import CFG
+    cfg_m = CFG(m)
+
+    def site_guards(site):
+        for n in cfg_m.stmt_nodes():
+            if n.kind == "stmt" and any(c is site.call for c in ast.walk(n.stmt)):
+                return sorted((norm_stmt(g.stmt.test), arm) for g, arm in cfg_m.guards_of(n)
+                              if not (g.stmt.body and isinstance(g.stmt.body[-1], ast.Raise)))   # validation guards are not selection
+        return None
+    sel = {k_: site_guards(sites[k_]) for k_ in want_args}
+    ok_sel = sel["ws2dwcvp"] in ([("p", True)], [("p is not None", True)]) and sel["ws2dwcv"] in ([("p", False)], [("p is not None", False)])
+    rep.ob("R-FORMULA", AFILE, "WhittakerSmoother.whitswcv", "kernel selection: any p given -> asymmetric GCV kernel; no p -> symmetric GCV kernel", ok_sel,
+           f"sites run under {sel}", "whitswcv: kernel selection")
     sg = [st for st in ast.walk(m) if isinstance(st, ast.Assign) and ast.unparse(st.targets[0]) == "ds_out['sgrid']"]
     rep.ob("R-FORMULA", AFILE, "WhittakerSmoother.whitswcv", "sgrid = log10(reported lambda) stored as float32", len(sg) == 1 and
            norm_stmt(sg[0].value) == "np.log10(sgrid).astype('float32')", f"{[norm_stmt(s_) for s_ in sg]}", sg[0] if sg else "sgrid")
